@@ -71,3 +71,10 @@ Proof.
   - unfold C13_ops, op_bytes, bytes. repeat (constructor; try reflexivity).
   - split; vm_compute; reflexivity.
 Qed.
+
+(** ** with list_storages and scans in the history (SysScanProofs) *)
+From Yk Require Import SysScanProofs.
+Theorem C13_refines_map_of_maps_all_ops : forall ops, Forall op_bytes ops ->
+  map abs_out (snd (exec_all sys_init ops)) = snd (spec_exec_all spec_init ops).
+Proof. exact sys_refines_spec_all. Qed.
+Print Assumptions C13_refines_map_of_maps_all_ops.
